@@ -254,8 +254,8 @@ func oracleLabels(o *hxlib.Out, idx int, replay string, bi int, b ibatch, r ibat
 			"choice": b.b[first], "base": base, "transport": transport,
 			"result_buffer": b.rbuf.String(), "result_buffer_class": b.rbuf.class(),
 			"result_buffer_nonzero_before_call": anyNonZeroL(r.initL),
-			"held_before": r.initL[first].String(),
-			"n_mod": fmt.Sprintf("8:%d 64:%d 128:%d 512:%d", b.n%8, b.n%64, b.n%128, b.n%512)})
+			"held_before":                       r.initL[first].String(),
+			"n_mod":                             fmt.Sprintf("8:%d 64:%d 128:%d 512:%d", b.n%8, b.n%64, b.n%128, b.n%512)})
 	}
 }
 
@@ -287,11 +287,15 @@ func oracleBits(o *hxlib.Out, idx int, replay string, bi int, b ibatch, r ibatch
 		o.Fail("c06-bits-corr", map[string]any{"case": idx, "replay": replay, "batch": bi, "n": b.n, "what": "length"})
 		return
 	}
-	if anyNonZeroW(r.initRW[:need]) || anyNonZeroW(r.initSW[:need]) {
-		oracleBitsDirty(o, idx, replay, bi, b, r, d0, base, transport)
-		return
+	// The result slices may hold anything before the call ("Existing contents
+	// are overwritten"): every position < n is judged, whatever it held.
+	dirty := anyNonZeroW(r.initRW[:need]) || anyNonZeroW(r.initSW[:need])
+	if dirty {
+		o.Count("iknp_bits_dirty_buffers")
+	} else {
+		o.Count("iknp_bits_clean_buffers")
 	}
-	o.Count("iknp_bits_clean_buffers")
+	onlyStale := true // every wrong position had a set bit in one of the slices before the call
 	wrong := 0
 	first := -1
 	unc := uncoveredFrom(b.n)
@@ -315,15 +319,22 @@ func oracleBits(o *hxlib.Out, idx int, replay string, bi int, b ibatch, r ibatch
 				first = i
 			}
 			wrong++
+			if !bitOf(r.initRW, i) && !bitOf(r.initSW, i) {
+				onlyStale = false
+			}
 		}
 	}
-	// bits at positions >= n of the result words must stay clear
+	// bits at positions >= n of the result words must stay as they were
 	stray := false
 	if b.n%64 != 0 {
 		mask := ^((uint64(1) << (b.n % 64)) - 1)
-		if r.swords[need-1]&mask != 0 || r.rwords[need-1]&mask != 0 {
+		if (r.swords[need-1]^r.initSW[need-1])&mask != 0 || (r.rwords[need-1]^r.initRW[need-1])&mask != 0 {
 			stray = true
 		}
+	}
+	if wrong > 0 && dirty && onlyStale {
+		// the defect repaired by 8f72c8a (result bits only ORed in) is back
+		o.Count("bits_dirty_buffer_wrong_batches")
 	}
 	o.CountN("oracle_iknp_bits_positions", b.n)
 	if unc < b.n {
@@ -353,57 +364,17 @@ func oracleBits(o *hxlib.Out, idx int, replay string, bi int, b ibatch, r ibatch
 			"wrong": wrong, "first_wrong": first, "choices": b.ckind, "delta_bit0": d0,
 			"n_mod_64": b.n % 64, "uncovered_from": unc,
 			"only_rows_receivebits_leaves_unxored": fmt.Sprint(exact),
-			"base":                                 base, "transport": transport,
+			"result_buffers_nonzero_before_call":   fmt.Sprint(dirty),
+			"only_positions_with_stale_bits":       fmt.Sprint(dirty && onlyStale),
+			"rbuf":                                 b.rbuf.String(), "sbuf": b.sbuf.String(),
+			"rwords_before": clipS(wordsHex(r.initRW), 200), "swords_before": clipS(wordsHex(r.initSW), 200),
+			"base": base, "transport": transport,
 			"swords": clipS(wordsHex(r.swords), 200), "rwords": clipS(wordsHex(r.rwords), 200),
 			"cwords": clipS(wordsHex(b.words), 200)})
 	}
 }
 
 // genBatches: 1..4 calls on one instance, mixing the three forms.
-var knownDirtyReported int
-
-// oracleBitsDirty: packed-bit call whose result slices were not zero before
-// the call.  The property (and the doc comments of SendBits / ReceiveBits:
-// "Existing contents are overwritten") asks for r_i = s_i xor (b_i and
-// Delta.Bit(0)) at every position whatever the buffers held.
-func oracleBitsDirty(o *hxlib.Out, idx int, replay string, bi int, b ibatch, r ibatchRes, d0 bool, base, transport string) {
-	o.Count("iknp_bits_dirty_buffers")
-	wrong, first := 0, -1
-	onlyStale := true // every wrong position had a set bit in one of the slices before the call
-	for i := 0; i < b.n; i++ {
-		want := bitOf(r.swords, i) != (bitOf(b.words, i) && d0)
-		if bitOf(r.rwords, i) != want {
-			if first < 0 {
-				first = i
-			}
-			wrong++
-			if !bitOf(r.initRW, i) && !bitOf(r.initSW, i) {
-				onlyStale = false
-			}
-		}
-	}
-	o.CountN("oracle_iknp_bits_positions", b.n)
-	if wrong == 0 {
-		return
-	}
-	if onlyStale {
-		o.Count("bits_dirty_buffer_wrong_batches")
-		knownDirtyReported++
-		if knownDirtyReported > 3 {
-			o.Counters["oracle_fail"]++
-			return
-		}
-	}
-	o.Fail("c06-bits-dirty-buffer", map[string]any{"case": idx, "replay": replay, "batch": bi, "n": b.n,
-		"wrong": wrong, "first_wrong": first, "choices": b.ckind, "delta_bit0": d0,
-		"only_positions_with_stale_bits": fmt.Sprint(onlyStale),
-		"rbuf": b.rbuf.String(), "sbuf": b.sbuf.String(), "rbuf_class": b.rbuf.class(), "sbuf_class": b.sbuf.class(),
-		"base": base, "transport": transport,
-		"swords": clipS(wordsHex(r.swords), 200), "rwords": clipS(wordsHex(r.rwords), 200),
-		"rwords_before": clipS(wordsHex(r.initRW), 200), "swords_before": clipS(wordsHex(r.initSW), 200),
-		"cwords": clipS(wordsHex(b.words), 200)})
-}
-
 func genBatches(r *hxlib.Rng, first int, maxN int, kinds string, firstKind byte) []ibatch {
 	nb := 1 + r.Intn(3)
 	if r.Intn(6) == 0 {
@@ -481,26 +452,76 @@ func iknpMode(args []string) int {
 				maxL = b.n
 			}
 		}
+		// Planned part of the buffer classes (deterministic in the case index,
+		// so that every class is reached for every seed): in the size sweep
+		// the first call of cases i%4 in {0,1} gets fresh buffers, of cases
+		// i%4 in {2,3} the class bufClasses[(i/4)%5] (sender's packed-bit
+		// buffer: two classes further); every other such case repeats its first
+		// call's form and size as a second call INTO THE SAME SLICE.  All
+		// remaining calls draw their class at random.
+		sweep := i < 2*len(sweepSizes)
+		planned := ""
+		if sweep && i%4 >= 2 {
+			planned = bufClasses[(i/4)%len(bufClasses)]
+		}
+		sameSlice := planned != "" && (i/4)%2 == 1
+		if sameSlice {
+			b0 := batches[0]
+			c, ck := genChoices(r, b0.n)
+			nb := ibatch{kind: b0.kind, n: b0.n, b: c, ckind: ck}
+			if nb.kind == 'L' && (i/4)%4 == 3 {
+				nb.kind = 'M' // malicious-mode call into the slice a semi-honest call wrote
+			}
+			if nb.kind == 'B' {
+				nb.words = packWords(c, nil)
+			}
+			if len(batches) < 2 {
+				batches = append(batches, nb)
+			} else {
+				batches[1] = nb
+			}
+			nM = 0
+			for _, b := range batches {
+				if b.kind == 'M' {
+					nM++
+				}
+			}
+		}
 		// the parties' long-lived arrays: as long as the longest call needs,
-		// often a little longer (slices at an offset, longer-than-needed
-		// packed-bit slices)
+		// two times out of three a little longer (slices at an offset,
+		// longer-than-needed packed-bit slices)
 		arenaL, arenaW := maxL, maxW
-		if r.Intn(3) > 0 {
+		if i%3 != 0 || planned == "kept_subslice" {
 			arenaL += 1 + r.Intn(9)
 			arenaW += 1 + r.Intn(3)
 		}
 		for j := range batches {
 			b := &batches[j]
+			need, arena, exact := b.n, arenaL, true
 			if b.kind == 'B' {
-				b.rbuf = genBuf(r, (b.n+63)/64, arenaW, false, j == 0)
-				b.sbuf = genBuf(r, (b.n+63)/64, arenaW, false, j == 0)
-			} else {
-				b.rbuf = genBuf(r, b.n, arenaL, true, j == 0)
-				b.sbuf = bufSpec{fresh: true}
+				need, arena, exact = (b.n+63)/64, arenaW, false
 			}
-			if j == 0 && i < 2*len(sweepSizes) && i%4 < 2 {
-				// half of the size sweep on fresh buffers
-				b.rbuf, b.sbuf = bufSpec{fresh: true}, bufSpec{fresh: true}
+			b.rbuf, b.sbuf = genBuf(r, need, arena, exact), bufSpec{fresh: true}
+			if b.kind == 'B' {
+				b.sbuf = genBuf(r, need, arena, exact)
+			}
+			if j == 0 && sweep {
+				if planned == "" {
+					b.rbuf, b.sbuf = bufSpec{fresh: true}, bufSpec{fresh: true}
+				} else {
+					b.rbuf = genBufClass(r, planned, need, arena, exact)
+					if b.kind == 'B' {
+						b.sbuf = genBufClass(r, bufClasses[((i/4)+2)%len(bufClasses)], need, arena, exact)
+					}
+				}
+			}
+			if j == 1 && sameSlice {
+				// the slice the first call wrote, as it left it
+				b.rbuf = bufSpec{pre: "k", off: batches[0].rbuf.off, extra: batches[0].rbuf.extra}
+				if b.kind == 'B' {
+					b.sbuf = bufSpec{pre: "k", off: batches[0].sbuf.off, extra: batches[0].sbuf.extra}
+				}
+				o.Count("iknp_same_slice_as_previous_call_" + string(b.kind))
 			}
 		}
 		stape := r.Bytes(16)
